@@ -31,7 +31,7 @@ MANIFEST = dict(
 
 CFG = {
     "quick": dict(mc="MC_Convert.cfg", gen="Gen_Convert.cfg", full16=False, nrand=24, ks=(0, 7, 8, 15, 16, 31, 32, 63, 64),
-                  text_frac=0.18, long_digits=(40, 310), chunks=8, api_stride={"data": 3, "iter": 4},
+                  text_frac=0.08, long_digits=(40, 310), chunks=8, api_stride={"data": 3, "iter": 4},
                   bn=("MC_BigNat.cfg", "MC_BigNat_16.cfg")),
     "thorough": dict(mc="MC_Convert_t.cfg", gen="Gen_Convert_t.cfg", full16=True, nrand=400, ks=tuple(range(0, 65)),
                      text_frac=1.0, long_digits=(40, 310, 4950), chunks=16, api_stride={"data": 1, "iter": 1},
@@ -336,6 +336,7 @@ def gen_text_cases(ck, cfg):
     leads = ["", " ", "\t \n"]
     tails = ["", "", "", " ", "z", "x", ".5", "e2", "\n"]
     texts = set()   # (text, base)
+    must = set()    # kept in the quick tier's sample
     for m in sorted(mags):
         for radix, base, pfx in forms:
             if m.bit_length() > 300 and radix not in (10, 16):
@@ -345,6 +346,8 @@ def gen_text_cases(ck, cfg):
             for s in (signs[:2] if long else signs):
                 for ld in (leads[:1] if long else leads):
                     texts.add((ld + s + body + rng.choice(tails), base))
+                    if ld == "" and s != "+" and (radix, base, pfx) in forms[:3]:
+                        must.add((s + body, base))       # every magnitude class, plain and negative, in every tier
     for t in ["", " ", "  \t", "-", "+", "0x", "0xg", "0x ", "08", "09", "- 1", "+-1", "--1", "1 2", "0b101", "1e5", "१", "\xb2",
               "0x-1", "-0x1", "-0", "+0", "00", "0000000000000000000000000000000000000001", "-00000000000000000000000000000009",
               "18446744073709551615", "-18446744073709551615", "-18446744073709551616", "-9223372036854775808",
@@ -353,6 +356,9 @@ def gen_text_cases(ck, cfg):
               "02000000000000000000000", "zzzzzzzzzzzzz", "1y2p0ij32e8e7", "1y2p0ij32e8e8", "3w5e11264sgsf", "3w5e11264sgsg"]:
         for base in (0, 10, 16, 36):
             texts.add((t, base))
+            if base in (0, 16):
+                must.add((t, base))
+    texts |= must
     ftexts = ["1e38", "3.4028235e38", "3.4028236e38", "3.40282357e38", "340282356779733661637539395458142568447",
               "340282356779733661637539395458142568448", "1e39", "-1e39", "1e-45", "1.4e-45", "7e-46", "1e-46", "1e-60", "1e308",
               "1.7976931348623157e308", "1.7976931348623158e308", "1.7976931348623159e308", "1.8e308", "1e309", "-1e309", "5e-324",
@@ -379,7 +385,7 @@ def gen_text_cases(ck, cfg):
     cases = []
     tl = sorted(texts)
     for (t, base) in tl:
-        if cfg["text_frac"] < 1.0 and rng.random() > cfg["text_frac"] and len(t) < 60:
+        if cfg["text_frac"] < 1.0 and (t, base) not in must and rng.random() > cfg["text_frac"] and len(t) < 60:
             continue
         chars = list(t.encode("latin-1", "replace"))
         if 0 in chars:
